@@ -14,39 +14,47 @@ Inductive aop :=
 | ASend (k : pkind) (data : str)    (* Client.Send(packet); data = its serialisation *)
 | ASendRaw (k : pkind) (data : str) (* Client.SendRaw(string); Connect's initial presence is one *)
 | ARefused (k : pkind) (data : str) (* Send or SendRaw whose write the transport refuses (error to the caller) *)
-| AAck (h : Z).                     (* <a h='h'/> from the server, routed; h is unsigned on the wire and
+| AAck (h : Z)                      (* <a h='h'/> from the server, routed; h is unsigned on the wire and
                                        clamped to the largest int before SendMissingStz, which is not
                                        visible here: sequence numbers are unbounded integers *)
+| AAckRefused (h : Z) (j : nat)     (* the same, but write number j (from 0) of the retransmission it causes is
+                                       refused (the transport fails, or sendWithWriter answers ErrNoSession because
+                                       a reconnection has started): SendMissingStz stops there *)
+| AEnabled (resume : bool).         (* a new session on which the server enabled stream management
+                                       (Session.EnableStreamManagement reading <enabled/>); resume: its resume
+                                       attribute reads as true (strconv.ParseBool) *)
 
 Inductive witem := WData (s : str) | WRequest.   (* what goes on the wire *)
 
-(* Send / SendRaw, under the client's send lock: stanzas are pushed (ack requests and answers are
-   not), then written; number and write are one step, so the queue order is the wire order *)
-Definition a_send (st : qstate) (k : pkind) (data : str) : qstate * list witem :=
+(* The client: the queue object of the session and Config.StreamManagementEnable, which Send and SendRaw
+   consult on every call.  It is the application's setting: the library does not change it (an <enabled/>
+   that does not grant resumption only clears streamManagementResume). *)
+Notation astate := ((list (Z * str) * Z) * bool)%type (only parsing).
+Definition a_queue (st : astate) : qstate := fst st.
+Definition a_hold (st : astate) : bool := snd st.
+
+(* a client configured with stream management, at the start of a session on which it is enabled *)
+Definition a_init : astate := (q_init, true).
+
+(* Send / SendRaw, under the client's send lock: while the flag is set stanzas are pushed (ack requests and
+   answers are not), then written; number and write are one step, so the queue order is the wire order *)
+Definition a_send (st : astate) (k : pkind) (data : str) : astate * list witem :=
   match k with
-  | KStanza => (q_push st data, [WData data])
+  | KStanza => if snd st then ((q_push (fst st) data, true), [WData data]) else (st, [WData data])
   | KRequest => (st, [WRequest])
   | KAnswer => (st, [WData data])
   end.
 
-(* UnAckQueue.DropLast: the tail entry leaves the queue, with its number, when it is the entry
-   of the last Push *)
-Definition q_drop_last (st : qstate) : qstate :=
-  match last_id (fst st) with
-  | Some i => if i =? snd st then (removelast (fst st), snd st - 1) else st
-  | None => st
-  end.
-
-(* a refused write: what was pushed is taken back; nothing reached the wire *)
-Definition a_refused (st : qstate) (k : pkind) (data : str) : qstate * list witem :=
+(* a refused write: what was pushed is taken back (UnAckQueue.DropLast, Model/Queue.v); nothing reached the wire *)
+Definition a_refused (st : astate) (k : pkind) (data : str) : astate * list witem :=
   match k with
-  | KStanza => (q_drop_last (q_push st data), [])
+  | KStanza => if snd st then ((q_droplast (q_push (fst st) data), true), []) else (st, [])
   | _ => (st, [])
   end.
 
 (* SendMissingStz(h), under the same lock: drop every entry numbered <= h; if entries remain,
    write them again in order (they stay queued under their numbers) and ask for a new ack *)
-Definition a_ack (st : qstate) (h : Z) : qstate * list witem :=
+Definition q_ack (st : qstate) (h : Z) : qstate * list witem :=
   match fst st with
   | [] => (st, [])
   | (first, _) :: _ =>
@@ -56,41 +64,66 @@ Definition a_ack (st : qstate) (h : Z) : qstate * list witem :=
       | _ => ((q', snd st), map (fun e => WData (snd e)) q' ++ [WRequest])
       end
   end.
+Definition a_ack (st : astate) (h : Z) : astate * list witem :=
+  let '(q', w) := q_ack (fst st) h in ((q', snd st), w).
 
-Definition a_step (st : qstate) (o : aop) : qstate * list witem :=
+(* ... cut short at the first refused write: the loop over the held entries returns at the first error and
+   the request is not written; a refused request (its error is ignored) leaves the same trace.  The entries
+   stay queued either way. *)
+Definition a_ack_refused (st : astate) (h : Z) (j : nat) : astate * list witem :=
+  let '(st', w) := a_ack st h in (st', firstn j w).
+
+(* EnableStreamManagement on <enabled/>: the session gets a new queue; whether the server grants resumption
+   (recorded elsewhere, for Resume) makes no difference to what is held *)
+Definition a_enabled (st : astate) (resume : bool) : astate * list witem :=
+  ((q_init, snd st), []).
+
+Definition a_step (st : astate) (o : aop) : astate * list witem :=
   match o with
   | ASend k d => a_send st k d
   | ASendRaw k d => a_send st k d
   | ARefused k d => a_refused st k d
   | AAck h => a_ack st h
+  | AAckRefused h j => a_ack_refused st h j
+  | AEnabled r => a_enabled st r
   end.
 
-Fixpoint a_run (st : qstate) (ops : list aop) : list (list witem * queue) :=
+Fixpoint a_run (st : astate) (ops : list aop) : list (list witem * queue) :=
   match ops with
   | [] => []
-  | o :: ops' => let '(st', w) := a_step st o in (w, fst st') :: a_run st' ops'
+  | o :: ops' => let '(st', w) := a_step st o in (w, fst (fst st')) :: a_run st' ops'
   end.
 
+(* the state after a history *)
+Definition a_exec (st : astate) (ops : list aop) : astate := fold_left (fun s o => fst (a_step s o)) ops st.
+
 (* ---- specification: absolute numbering of the stanzas sent on the session ---- *)
-Record spec := { sp_sent : list str; sp_acked : nat }.   (* acked <= length sent *)
-Definition sp_init : spec := {| sp_sent := []; sp_acked := 0 |}.
+(* sp_on: the client is configured with stream management (stanzas sent are held) *)
+Record spec := { sp_sent : list str; sp_acked : nat; sp_on : bool }.   (* acked <= length sent *)
+Definition sp_init : spec := {| sp_sent := []; sp_acked := 0; sp_on := true |}.
 Definition sp_held (s : spec) : list str := skipn (sp_acked s) (sp_sent s).
+
+(* the h oldest stanzas of the session are delivered; an ack never un-delivers; what remains held is
+   written again in order, followed by a request *)
+Definition sp_ack (s : spec) (h : Z) : spec * list witem :=
+  let a := Nat.max (sp_acked s) (Nat.min (Z.to_nat h) (length (sp_sent s))) in
+  let s' := {| sp_sent := sp_sent s; sp_acked := a; sp_on := sp_on s |} in
+  match sp_held s' with
+  | [] => (s', [])
+  | held => (s', map WData held ++ [WRequest])
+  end.
 
 Definition sp_step (s : spec) (o : aop) : spec * list witem :=
   match o with
   | ASend KStanza d | ASendRaw KStanza d =>
-      ({| sp_sent := sp_sent s ++ [d]; sp_acked := sp_acked s |}, [WData d])
+      if sp_on s then ({| sp_sent := sp_sent s ++ [d]; sp_acked := sp_acked s; sp_on := true |}, [WData d])
+      else (s, [WData d])   (* written; not a stanza of a session that holds *)
   | ASend KRequest _ | ASendRaw KRequest _ => (s, [WRequest])
   | ASend KAnswer d | ASendRaw KAnswer d => (s, [WData d])
   | ARefused _ _ => (s, [])   (* not sent on the session: neither held nor counted *)
-  | AAck h =>
-      (* the h oldest stanzas of the session are delivered; an ack never un-delivers *)
-      let a := Nat.max (sp_acked s) (Nat.min (Z.to_nat h) (length (sp_sent s))) in
-      let s' := {| sp_sent := sp_sent s; sp_acked := a |} in
-      match sp_held s' with
-      | [] => (s', [])
-      | held => (s', map WData held ++ [WRequest])
-      end
+  | AAck h => sp_ack s h
+  | AAckRefused h j => let '(s', w) := sp_ack s h in (s', firstn j w)   (* delivered and held as for AAck *)
+  | AEnabled _ => ({| sp_sent := []; sp_acked := 0; sp_on := sp_on s |}, [])   (* a new session, resumable or not *)
   end.
 
 Fixpoint sp_run (s : spec) (ops : list aop) : list (list witem * list str) :=
@@ -98,3 +131,14 @@ Fixpoint sp_run (s : spec) (ops : list aop) : list (list witem * list str) :=
   | [] => []
   | o :: ops' => let '(s', w) := sp_step s o in (w, sp_held s') :: sp_run s' ops'
   end.
+Definition sp_exec (s : spec) (ops : list aop) : spec := fold_left (fun s o => fst (sp_step s o)) ops s.
+
+(* the first transmissions of a history, in the order of the steps *)
+Definition first_tx (o : aop) : list str :=
+  match o with ASend KStanza d | ASendRaw KStanza d => [d] | _ => [] end.
+Definition is_enabled (o : aop) : bool := match o with AEnabled _ => true | _ => false end.
+(* the h of an acknowledgement step *)
+Definition ack_h (o : aop) : option Z :=
+  match o with AAck h | AAckRefused h _ => Some h | _ => None end.
+(* the same history with every <enabled/> granting resumption *)
+Definition grant_resume (o : aop) : aop := match o with AEnabled _ => AEnabled true | _ => o end.
